@@ -241,12 +241,22 @@ func (root *Root) regField(obj *Object, fd *FieldDef, goField string, args ...st
 			}
 			newArgs := argList{}
 			for _, arg := range args {
-				if a := fd.args.get(arg); a != nil {
-					_ = newArgs.add(a)
-				} else {
+				if a := fd.args.get(arg); a == nil {
 					err = fmt.Errorf("%w: %s is not an argument on field %s of %s", ErrMeta, arg, goField, objMeta)
 					break
+				} else if newArgs.get(arg) != nil {
+					// Each argument once, the arguments of the field are
+					// the ones given here from now on.
+					err = fmt.Errorf("%w: %s is given twice for field %s of %s", ErrMeta, arg, goField, objMeta)
+					break
+				} else {
+					_ = newArgs.add(a)
 				}
+			}
+			if err != nil {
+				// The field is left as it was.
+				fd.method = nil
+				return
 			}
 			fd.args = newArgs
 		}
